@@ -1470,6 +1470,19 @@ func (ro *RedisOutput) bisyncStartPoint(ctx context.Context, runIDs []string) (S
 			}
 			if ro.bisyncRootCheckpointNewer(rootStartPoint, sp, runIDs) {
 				ro.logger.Infof("bisync startpoint parallel root override: checkpoint(%s), root(%+v), frontier(%+v)", checkpointName, rootStartPoint, sp)
+				// the run that starts here numbers its units from 1 again: the older frontier must not
+				// survive, or a later recovery joins it with the new run's journal records by sequence
+				// number and resumes behind a unit that was never committed
+				reset := &checkpoint.BisyncFrontierSnapshot{
+					Version: config.Version,
+					RunID:   rootStartPoint.RunId,
+					UnitSeq: 0,
+					Offset:  rootStartPoint.Offset,
+					MTime:   time.Now().UnixNano(),
+				}
+				if err := checkpoint.SaveBisyncFrontierSnapshot(cli, snapshotKey, reset); err != nil {
+					return sp, 0, false, err
+				}
 				return rootStartPoint, 0, true, nil
 			}
 			// Recovery may consume the first post-snapshot journal records to rebuild
